@@ -338,10 +338,13 @@ def gen_cases(rng, tier):
         for eq in ({"a": 0, "b": 0}, {"a": 0, "b": 2}, {"a": 2, "b": 0}, {"a": 0}):
             for _ in range(2):
                 cases.append(make_case(rng, "ode", eq, {"mode": "all"}, tier))
+    cases += _singular_cases(rng, tier)
     return cases
 
 
 def shrink_candidates(case):
+    if case.get("singular"):
+        return
     T, V = n_terms(case["kind"]), n_view(case)
     a = case["assign"]
     if case.get("extra"):
@@ -365,6 +368,7 @@ def shrink_candidates(case):
 
 def widen(rng, bad_cases):
     out = []
+    bad_cases = [c for c in bad_cases if not c.get("singular")]
     for c in bad_cases[:2]:
         eq = c["eq"]
         for _ in range(2):
@@ -377,6 +381,156 @@ def widen(rng, bad_cases):
 # ------------------------------------------------------------------------------------------------
 # the problems on the real jinns objects
 # ------------------------------------------------------------------------------------------------
+# ------------------------------------------------------------------------------------------------
+# singular flavour: an unselected (term, group) pair whose own derivative is NOT finite
+# ------------------------------------------------------------------------------------------------
+SING_SPECS = [
+    # (label, dyn spec, ic spec); specs: string, or (nn, a, b) booleans; None = omitted (default)
+    ("default", None, None),
+    ("from_str", "nn_params", "both"),
+    ("tree", (True, False, True), (True, True, True)),
+    ("mixed", (False, False, True), "eq_params"),
+]
+
+
+def _singular_cases(rng, tier):
+    out = []
+    for kind in ("ode", "statio"):
+        for rep in range(1 if tier == "quick" else 4):
+            out.append({"kind": kind, "singular": True, "seed": rng.randrange(1 << 30),
+                        "c": [str(rng.choice([-2, -1, 1, 2])) for _ in range(3)],
+                        "b": str(rng.choice([1, 2, 3])), "pts": [str(rng.choice([1, 2, 3])) for _ in range(2)],
+                        "path": ["eager", "jit"][rep % 2] if tier != "quick" else rng.choice(["eager", "jit"])})
+    return out
+
+
+def _run_singular(case):
+    """LossODE / LossPDEStatio whose dynamic residual contains sqrt(a) at a = 0: the value is finite, the
+    derivative of the dynamic term w.r.t. `a` is not.  Under every specification that does not select `a` for
+    the dynamic term the gradient of the total (and of the dynamic term) w.r.t. `a` must be exactly 0 -- the
+    contribution of an unselected pair is zero whatever its own derivative is -- and the gradients w.r.t. the
+    selected groups must be those of the regular problem."""
+    import jax
+    import jax.numpy as jnp
+    import numpy as np
+    from harness import core
+    from harness.polynet import P, make_pinn
+    from jinns.parameters import Params
+
+    kind = case["kind"]
+    c = [float(Fraction(x)) for x in case["c"]]
+    nv = 1
+    poly = P(nv, {(0,): Fraction(case["c"][0]), (1,): Fraction(case["c"][1]), (2,): Fraction(case["c"][2])})
+    eq_type = "ODE" if kind == "ode" else "statio_PDE"
+    pinn = make_pinn([poly], eq_type)
+    params = Params(nn_params=pinn.init_params(),
+                    eq_params={"a": jnp.array(0.0), "b": jnp.array(float(Fraction(case["b"])))})
+    pts = jnp.array([[float(Fraction(x))] for x in case["pts"]])
+    if kind == "ode":
+        from jinns.loss import ODE, LossODE, LossWeightsODE
+        from jinns.data._Batchs import ODEBatch
+        from jinns.parameters import DerivativeKeysODE as DK
+
+        class Dyn(ODE):
+            def equation(self, t, u, params):
+                return u(t, params) * params.eq_params["b"] + jnp.sqrt(params.eq_params["a"])
+
+        batch = ODEBatch(temporal_batch=pts[:, 0])
+
+        def build(dk):
+            return LossODE(u=pinn, dynamic_loss=Dyn(Tmax=1), derivative_keys=dk, initial_condition=(0.0, 1.0),
+                           loss_weights=LossWeightsODE(dyn_loss=1.0, initial_condition=1.0), params=params)
+        second = "initial_condition"
+    else:
+        from jinns.loss import PDEStatio, LossPDEStatio, LossWeightsPDEStatio
+        from jinns.data._Batchs import PDEStatioBatch
+        from jinns.parameters import DerivativeKeysPDEStatio as DK
+
+        class Dyn(PDEStatio):
+            def equation(self, x, u, params):
+                return u(x, params) * params.eq_params["b"] + jnp.sqrt(params.eq_params["a"])
+
+        batch = PDEStatioBatch(inside_batch=pts, border_batch=jnp.stack([pts[:1], pts[1:2]], axis=-1))
+
+        def build(dk):
+            return LossPDEStatio(u=pinn, dynamic_loss=Dyn(), derivative_keys=dk,
+                                 omega_boundary_fun=lambda x: 1.0, omega_boundary_condition="dirichlet",
+                                 loss_weights=LossWeightsPDEStatio(dyn_loss=1.0, boundary_loss=1.0), params=params)
+        second = "boundary_loss"
+
+    def tree(m):
+        return Params(nn_params=bool(m[0]), eq_params={"a": bool(m[1]), "b": bool(m[2])})
+
+    def mk(spec):
+        return spec if (spec is None or isinstance(spec, str)) else tree(spec)
+
+    def selects(spec, g):  # g: 0 nn, 1 a, 2 b
+        if spec is None or spec == "nn_params":
+            return g == 0
+        if spec == "eq_params":
+            return g != 0
+        if spec == "both":
+            return True
+        return bool(spec[g])
+
+    results = []
+    for label, sd, s2 in SING_SPECS:
+        kw = {}
+        try:
+            if sd is None and s2 is None:
+                dk = None
+            elif isinstance(sd, str) or isinstance(s2, str):
+                dk = DK.from_str(params=params, dyn_loss=mk(sd) if sd is not None else "nn_params",
+                                 **{second: mk(s2) if s2 is not None else "nn_params"})
+            else:
+                dk = DK(dyn_loss=mk(sd), params=params, **{second: mk(s2)})
+            loss = build(dk)
+            f_tot = lambda p: loss.evaluate(p, batch)[0]
+            f_dyn = lambda p: loss.evaluate(p, batch)[1]["dyn_loss"]
+            if case["path"] == "jit":
+                f_tot, f_dyn = jax.jit(f_tot), jax.jit(f_dyn)
+            v = f_tot(params)
+            gt, gd = jax.grad(f_tot)(params), jax.grad(f_dyn)(params)
+        except Exception as e:
+            results.append({"label": label, "error": core.err_kind(e), "msg": str(e)[:200]})
+            continue
+
+        def pack(g):
+            out = {}
+            for name, x in (("nn", g.nn_params.coef), ("a", g.eq_params["a"]), ("b", g.eq_params["b"])):
+                arr = np.asarray(x, dtype=float).reshape(-1)
+                out[name] = [core.qstr(z) if np.isfinite(z) else repr(float(z)) for z in arr]
+            return out
+
+        results.append({"label": label, "value_finite": bool(np.isfinite(np.asarray(v))), "total": pack(gt),
+                        "dyn": pack(gd), "dyn_selects": [selects(sd, g) for g in range(3)],
+                        "second_selects": [selects(s2, g) for g in range(3)]})
+    return {"singular": results}
+
+
+def _judge_singular(case, obs):
+    nontriv = False
+    for r in obs["singular"]:
+        if "error" in r:
+            return {"status": "violation", "clause": "valid-specification-rejected", "where": r}
+        if not r["value_finite"]:
+            return {"status": "disagree", "clause": "singular-probe-value-not-finite"}
+        for gi, g in enumerate(("nn", "a", "b")):
+            if not r["dyn_selects"][gi]:
+                # unselected (dynamic term, g): exactly zero, finite -- in the term's own gradient ...
+                if any(x not in ("0",) for x in r["dyn"][g]):
+                    return {"status": "violation", "clause": "unselected-pair-contributes-nonzero",
+                            "where": {"spec": r["label"], "term": "dyn_loss", "group": g, "gradient": r["dyn"][g]}}
+                nontriv = nontriv or g == "a"
+        # ... and in the total: `a` only enters the dynamic term, so whenever the dynamic term does not select
+        # it the total gradient w.r.t. `a` is the (zero) contribution of the other term
+        if not r["dyn_selects"][1] and any(x != "0" for x in r["total"]["a"]):
+            return {"status": "violation", "clause": "unselected-pair-contributes-nonzero",
+                    "where": {"spec": r["label"], "term": "total", "group": "a", "gradient": r["total"]["a"]}}
+    return {"status": "ok", "clause": None, "nontrivial": nontriv}
+
+
+
 def _f(s):
     return float(Fraction(s))
 
@@ -707,6 +861,8 @@ def run_impl(case):
     import equinox as eqx
     from harness import core
 
+    if case.get("singular"):
+        return _run_singular(case)
     pr = _build(case)
     params, batch = pr.params, pr.batch
     leaves, treedef = jax.tree_util.tree_flatten(params)
@@ -965,6 +1121,8 @@ def _lean_obs(o):
 
 
 def lean_request(case, obs):
+    if case.get("singular"):
+        return None
     st = _setup(obs)
     items = [_lean_obs(o) for o in obs["obs"]]
     reqs = []
@@ -974,6 +1132,8 @@ def lean_request(case, obs):
 
 
 def judge(case, obs, answers):
+    if case.get("singular"):
+        return _judge_singular(case, obs)
     # harness-level sanity of the set-up (two independent exact references, isolation of per-unknown terms)
     if obs.get("ref_poly") and obs["ref_poly"]["grads"] != obs["ref_stencil"]:
         return {"status": "disagree", "clause": "exact-references-differ (float inexactness or degree > 6?)"}
@@ -1000,6 +1160,8 @@ def judge(case, obs, answers):
 
 
 def nontrivial(case, obs):
+    if case.get("singular"):
+        return all("error" not in r for r in obs["singular"])
     # every (term, group of its view) all-true gradient is non-zero ...
     for k, gm in enumerate(obs["gmaps"]):
         for g, pos in enumerate(gm):
@@ -1014,6 +1176,9 @@ def nontrivial(case, obs):
 
 
 def tags(case, obs):
+    if case.get("singular"):
+        return [f"kind={case['kind']}", "flavour=singular(non-finite derivative of an unselected pair)",
+                "path=" + case["path"]]
     out = [f"kind={case['kind']}", f"groups={len(obs['dims'])}", f"terms={len(obs['terms'])}",
            f"assign={case['assign']['mode']}"]
     if any(v > 0 for v in case["eq"].values()):
